@@ -5,7 +5,7 @@ CONSTANTS
   MaxPool = 1
   MaxSize = 64
   Raise = FALSE
-  Devs = {"EnumFirstZeroUnsigned", "UnnamedNoAlign", "UnionUnnamedIgnored", "PackedNoFinalAlign"}
+  Devs = {"UnnamedNoAlign", "UnionUnnamedIgnored", "PackedNoFinalAlign"}
   Widths = {3, 33}
   Emit = TRUE
   CharSigned = TRUE
